@@ -9,8 +9,10 @@ Open Scope Z_scope.
 Record ccase := {
   k_prog : list cmd;
   k_env : denv;
+  k_derive : Z;               (* what is copied: 0 the built circuit, 1 apply_modifiers() of it, 2 flatten() of it, 3 apply_modifiers().flatten() *)
   k_orig : option obs;        (* operations of the circuit *)
   k_copy : option obs;        (* operations of circuit_structure.copy() *)
+  k_copy_listed : option obs; (* the same, of a circuit whose operations were listed before it was copied *)
   k_nested : option obs;      (* operations of an empty circuit to which the circuit was added (implicit copy) *)
   k_copy_unchanged : bool;    (* the copy reports the same before and after the original was extended and unrolled *)
   k_orig_unchanged : bool     (* the original reports the same before and after the copy was extended and unrolled *)
@@ -20,12 +22,25 @@ Definition ops_eqb (a : list oentry) (o : option obs) : bool :=
   match o with None => true | Some b => list_eqb oentry_eqb a (o_ops b) end.
 Definition model_ops (env : denv) (ns : list node) : list oentry := map (entry_to_o env) (listing env ns).
 
-Definition agree_c (c : ccase) : bool :=
+(* the circuit that is copied, in the model; None where the model's flatten is undefined (C11_model_scope) *)
+Definition derived_nodes (c : ccase) : option (list node) :=
   let env := k_env c in
   let ns := run_prog env (k_prog c) in
-  ops_eqb (model_ops env ns) (k_orig c)
-  && ops_eqb (model_ops env (copy_nodes env ns)) (k_copy c)
-  && ops_eqb (model_ops env (run_prog env [CSub 1 (k_prog c)])) (k_nested c).
+  if k_derive c =? 0 then Some ns
+  else if k_derive c =? 1 then Some (apply_modifiers env 1 ns)
+  else if k_derive c =? 2 then flatten env ns
+  else flatten env (apply_modifiers env 1 ns).
+
+Definition agree_c (c : ccase) : bool :=
+  let env := k_env c in
+  match derived_nodes c with
+  | None => true
+  | Some ns =>
+      ops_eqb (model_ops env ns) (k_orig c)
+      && ops_eqb (model_ops env (copy_nodes env ns)) (k_copy c)
+      && ops_eqb (model_ops env (copy_nodes env ns)) (k_copy_listed c)
+      && ops_eqb (model_ops env (add_node env [] (OComp 1 (copy_nodes env ns)) LNone)) (k_nested c)
+  end.
 
 (* same operation sequence: class, channels, duration, tag, relation type, referent position, schedule relative to own start *)
 Definition rel_type (o : oentry) : Z :=
@@ -53,14 +68,15 @@ Definition faithful (a b : option obs) : bool :=
   end.
 
 Definition spec_c (c : ccase) : bool :=
-  faithful (k_orig c) (k_copy c) && faithful (k_orig c) (k_nested c) && k_copy_unchanged c && k_orig_unchanged c.
+  faithful (k_orig c) (k_copy c) && faithful (k_orig c) (k_copy_listed c) && faithful (k_orig c) (k_nested c)
+  && k_copy_unchanged c && k_orig_unchanged c.
 
 (* a case is a generated build program (model + specification) or a program the Core model does not express — a relation to a
    GROUP of operations with an arbitrary relation type, built with MultiRelationLink — judged by the specification alone *)
-Inductive case := KCore (c : ccase) | KSpecOnly (orig copy nested : option obs) (copy_unchanged orig_unchanged : bool).
-Definition agree (c : case) : bool := match c with KCore x => agree_c x | KSpecOnly _ _ _ _ _ => true end.
+Inductive case := KCore (c : ccase) | KSpecOnly (orig copy copy_listed nested : option obs) (copy_unchanged orig_unchanged : bool).
+Definition agree (c : case) : bool := match c with KCore x => agree_c x | KSpecOnly _ _ _ _ _ _ => true end.
 Definition spec_ok (c : case) : bool :=
   match c with
   | KCore x => spec_c x
-  | KSpecOnly o cp n cu ou => faithful o cp && faithful o n && cu && ou
+  | KSpecOnly o cp cl n cu ou => faithful o cp && faithful o cl && faithful o n && cu && ou
   end.
